@@ -108,6 +108,11 @@ def run(tier):
             sel = [dict(c, repeat=(k == 0)) for k, c in enumerate(sel)]
             tasks.append(dict(case=case, routine=routine, configs=sel, tol=tol, tf=0.5,
                               sid="cfg[%s|%s]" % (case.split("/")[0], routine)))
+    # a network with isolated buses (their rows are neutralised by a separate code path for each way of accumulating the
+    # Jacobian): every back-end with both accumulation modes, always (not sampled)
+    isl = [dict(lib=l_, linsolve=0, ipadd=ip, method="NR", repeat=(l_ == "klu" and ip == 1)) for l_ in ("klu", "umfpack", "spsolve") for ip in (1, 0)]
+    for routine, tol in (("pflow", 1e-6), ("tds", 1e-3)):
+        tasks.append(dict(case="ieee14/ieee14_island.xlsx", routine=routine, configs=isl, tol=tol, tf=0.3, sid="cfg[ieee14_island|%s]" % routine))
     itasks = [dict(kind="interleave", case=cases[0], other=("5bus/pjm5bus.json" if k % 2 == 0 else cases[0]), lib=lib,
                    sid="interleave[%s|%s then %s]" % (lib, cases[0].split("/")[0], "5bus" if k % 2 == 0 else "the same case"))
               for lib in ("klu", "umfpack", "spsolve") for k in range(2)]
